@@ -221,6 +221,9 @@ CONSUMER_CARRIERS = {
     "field": (("field", _V("ob"), "f"), ("field", _V("ob"), "g")),
     "nested-element": (("index", ("index", _V("ln"), _I(0)), _V("zi")), ("index", ("index", _V("lnb"), _I(0)), _V("zi"))),
     "optional": (("get", _V("oi")), ("get", _V("obl"))),
+    "map-value": (("get", ("index", _V("mi"), ("str", "k"))), ("get", ("index", _V("mb"), ("str", "k")))),
+    "field-list-element": (("index", ("field", _V("ob"), "l"), _V("zi")), ("index", ("field", _V("ob"), "lb"), _V("zi"))),
+    "call-result-element": (("index", ("call", _V("mkl"), []), _V("zi")), ("index", ("call", _V("mklb"), []), _V("zi"))),
     "variable": (_V("pv"), _V("pb")),
 }
 _CONSUMER_SKIP = {"modify", "modify-in-if", "modify-in-loop", "local-shadow", "self-assign", "self-assign-in-if", "selfcall-arg"}
@@ -268,7 +271,11 @@ def consumer_program(site, carrier, host):
     ci, cb = CONSUMER_CARRIERS[carrier]
     body = _snapshots()[site] if site.startswith("snap-") else c07.site_bodies(cv=ci, cb=cb)[site]
     A = lambda n, e, t=None: ("assign", n, e, t, ())
-    pre = [("class", "Ob", [("f", "int"), ("g", "bool")], ([], [("setfield", _V("self"), "f", _I(2)), ("setfield", _V("self"), "g", ("bool", True))]), []),
+    pre = [("class", "Ob", [("f", "int"), ("g", "bool"), ("l", "[int...]"), ("lb", "[bool...]")],
+            ([], [("setfield", _V("self"), "f", _I(2)), ("setfield", _V("self"), "g", ("bool", True)),
+                  ("setfield", _V("self"), "l", ("list", [_I(7), _I(2)])), ("setfield", _V("self"), "lb", ("list", [("bool", False), ("bool", True)]))]), []),
+           A("mi", ("maplit", "str", "int", [(("str", "k"), _I(2))])), A("mb", ("maplit", "str", "bool", [(("str", "k"), ("bool", True))])),
+           A("mkl", ("fn", [], "[int...]", [("return", ("list", [_I(7), _I(2)]))])), A("mklb", ("fn", [], "[bool...]", [("return", ("list", [("bool", False), ("bool", True)]))])),
            A("le", ("list", [_I(7), _I(2)]), "[int...]"), A("lb", ("list", [("bool", False), ("bool", True)]), "[bool...]"), A("zi", _I(1)),
            A("ob", ("new", "Ob", [])), A("ln", ("list", [("list", [_I(7), _I(2)])]), "[[int...]...]"),
            A("lnb", ("list", [("list", [("bool", False), ("bool", True)])]), "[[bool...]...]"),
